@@ -9,7 +9,7 @@ use crate::scenario::*;
 pub const CAPS: [usize; 8] = [1, 1, 2, 2, 3, 4, 4, 16];
 pub const POLS_MOSTLY_BLOCK: [Pol; 6] = [Pol::Block, Pol::Block, Pol::Block, Pol::Block, Pol::DropOldest, Pol::DropLatest];
 pub const POLS: [Pol; 3] = [Pol::Block, Pol::DropOldest, Pol::DropLatest];
-pub const CTORS: [Ctor; 3] = [Ctor::Builder, Ctor::BuilderWithReducer, Ctor::NewWith];
+pub const CTORS: [Ctor; 3] = [Ctor::Builder, Ctor::BuilderWithReducer, Ctor::Simple];
 pub const VIAS: [Via; 3] = [Via::Inherent, Via::StoreTrait, Via::Dispatcher];
 pub const STALLS: [Stall; 8] = [Stall::None, Stall::None, Stall::None, Stall::Yield, Stall::Yield, Stall::Us50, Stall::Us500, Stall::Ms2];
 
